@@ -22,6 +22,7 @@ func init() {
 
 func runC10(c *Ctx) {
 	c.U0()
+	theModel = c.model()
 	c.ruleR10ab("R10a mode-table-agreement", "R10b whitespace-alphabet")
 	c.ruleR10c("R10c left-trim-identity")
 	c.ruleR10d("R10d right-trim-moves-only-the-end")
@@ -356,11 +357,11 @@ func isStartCursor(v ssa.Value, posP *ssa.Parameter) bool {
 	}
 	if ct, ok := b.X.(*ssa.ChangeType); ok && ct.X == ssa.Value(posP) {
 		_, f, isLoad := fieldLoad(b.Y)
-		return isLoad && f == "offset"
+		return isLoad && f == theModel.Offset
 	}
 	if cv, ok := b.X.(*ssa.Convert); ok && cv.X == ssa.Value(posP) {
 		_, f, isLoad := fieldLoad(b.Y)
-		return isLoad && f == "offset"
+		return isLoad && f == theModel.Offset
 	}
 	return false
 }
@@ -376,7 +377,7 @@ func isByteAtCursor(v ssa.Value, cur *ssa.Phi) bool {
 		return false
 	}
 	_, f, isLoad := fieldLoad(ia.X)
-	return isLoad && f == "data"
+	return isLoad && f == theModel.Data
 }
 
 // inLoopCondition: block b belongs to the chain of tests that decide whether the loop continues: from b a
